@@ -210,7 +210,7 @@ def shrink_candidates(text):
         g["tasks"] = "/".join(",".join(t) for t in tasks)
         g["init"] = ",".join(init)
         g["down"] = "/".join(down)
-        return ";".join(f"{k}={g[k]}" for k in ["dir", "n", "prios", "init", "tasks", "down"])
+        return ";".join(f"{k}={g[k]}" for k in ["dir", "born", "n", "prios", "init", "tasks", "down"] if k in g)
     out = []
     for i in range(len(tasks)):
         if len(tasks) > 1:
@@ -222,11 +222,15 @@ def shrink_candidates(text):
         out.append(build(init=init[:i] + init[i + 1:]))
     if any(d for d in down):
         out.append(build(down=["" for _ in down]))
+    if f.get("born") == "1":
+        g0 = dict(f)
+        g0["born"] = "0"
+        out.append(";".join(f"{k}={g0[k]}" for k in ["dir", "born", "n", "prios", "init", "tasks", "down"]))
     return out
 
 
 def size(text):
-    return len(re.findall(r"[A-Z]\.", text)) * 4 + text.count(",") + text.count("/") + len(text) // 50
+    return len(re.findall(r"[A-Z]\.", text)) * 4 + text.count(",") + text.count("/") + len(text) // 50 + (3 if "born=1" in text else 0)
 
 
 def minimise(tmpl, text, cls, mseed, rate, budget_s):
@@ -256,7 +260,7 @@ def write_replay(pid, mode, vio, text, mseed, rate, seed, index):
         "property": pid, "engine": "msim", "mode": mode, "seed": seed, "run": index,
         "violation": {"class": vio[0], "detail": vio[1]},
         "scenario": text, "miri_seed": mseed, "preemption_rate": rate,
-        "how_to_read": "scenario: dir (1 directed), n nodes, prios, init edges u.v.value, tasks (one per caller thread; C connect u.v.value, T try_connect, D disconnect u.key, I isolate, Q queries u.key, S snapshot of u's edges, F search u.target.kind, H clone a handle, G get from the shared container), down = which thread drops which last handles; the schedule is the one Miri derives from miri_seed and preemption_rate",
+        "how_to_read": "scenario: dir (1 directed), born (1: every node created on a thread of its own), n nodes, prios, init edges u.v.value, tasks (one per caller thread; C connect u.v.value, T try_connect, D disconnect u.key, I isolate, Q queries u.key, S snapshot of u's edges, F search u.target.kind, H clone a handle, G get from the shared container), down = which thread drops which last handles; the schedule is the one Miri derives from miri_seed and preemption_rate",
     }, open(path, "w"), indent=1)
     return path
 
